@@ -9,9 +9,9 @@
 (*                      the C11 liveness property)                                          *)
 (* A call the spec cannot explain is reported as <<"MISMATCH", l>> and <<"WHY", l, class>>. *)
 (* If it is a dequeue of a request that IS pending (wrong choice: priority, fairness,       *)
-(* second indication) validation goes on from the state the implementation chose, so that   *)
-(* later calls of the same execution are still judged; otherwise it resynchronises at the   *)
-(* next Reset.                                                                              *)
+(* second indication) or a queue call with a wrong result, validation goes on from the      *)
+(* state the implementation chose (see Relaxed), so that later calls of the same execution  *)
+(* are still judged; otherwise it resynchronises at the next Reset.                         *)
 EXTENDS NotifQueue, Json, IOUtils, TLC
 
 Tr == ndJsonDeserialize(IOEnv.TRACE)
@@ -35,8 +35,14 @@ Explain(ev) ==
 
 \* the implementation handed out a pending request the spec would not have chosen now
 Relaxed(ev) ==
-    /\ ev.e = "dq" /\ ev.k \in Kinds /\ <<ev.i, ev.k>> \in pending
-    /\ Take(<<ev.i, ev.k>>)
+    \/ /\ ev.e = "dq" /\ ev.k \in Kinds /\ <<ev.i, ev.k>> \in pending
+       /\ Take(<<ev.i, ev.k>>)
+    \* a queue call with the wrong result: "refused" (r = FALSE, not pending) is taken as dropped, "newly queued"
+    \* (r = TRUE, already pending) as still pending once - i.e. the pending set stays as it is; should the
+    \* implementation have done something else, a later dequeue is reported as not_pending / empty_but_dequeuable
+    \/ /\ ev.e \in {"qn", "qi"} /\ ev.i \in Idx
+       /\ UNCHANGED <<pending, outstanding, over, passed>>
+       /\ last' = Call(ev.e, ev.i, IF ev.e = "qn" THEN "n" ELSE "i", ev.r)
 
 WhyEv(ev) ==
     CASE ev.e \in {"qn", "qi"} -> IF ev.i \in Idx THEN WhyQueue(ev.i, IF ev.e = "qn" THEN "n" ELSE "i", ev.r)
